@@ -24,6 +24,10 @@ M = [
     ("C03-h3-gt-writeuntil", "C03", "motion/motionprocessor.go", "mp.framesWritten >= mp.writeUntil", "mp.framesWritten > mp.writeUntil"),
     ("C04-h1-no-window-check", "C04", "motion/motionprocessor.go", "	if !mp.window.Active() {\n		return errors.New(\"motion detected but outside of recording window\")\n	}\n", "	_ = errors.New\n"),
     ("C04-h2-refused-start-resets-run", "C04", "motion/motionprocessor.go", "			mp.log.Printf(\"Recording not started: %v\", err)\n", "			mp.log.Printf(\"Recording not started: %v\", err)\n			mp.triggered = 0\n"),
+    ("C04-h3-window-start-stop-swapped", "C04", "recorder/recorderconfig.go", "		windowsConfig.StartRecording,\n		windowsConfig.StopRecording,", "		windowsConfig.StopRecording,\n		windowsConfig.StartRecording,"),
+    ("C04-h4-min-disk-space-ignored", "C04", "cmd/thermal-recorder/cptvfilerecorder.go", "	} else if !enoughSpace {", "	} else if !enoughSpace && cfr.minDiskSpace == 0 {"),
+    ("C05-h3-activate-inverted", "C05", "cmd/thermal-recorder/main.go", "	if conf.Throttler.Activate {", "	if !conf.Throttler.Activate {"),
+    ("C06-h4-minclip-from-minsecs-only", "C06", "cmd/thermal-recorder/main.go", "minRecordingLength := conf.Recorder.MinSecs + conf.Recorder.PreviewSecs", "minRecordingLength := conf.Recorder.MinSecs"),
     ("C05-h1-take-ignored", "C05", "throttle/throttled_recorder.go", "	if throttler.bucket.TakeAvailable(1) > 0 {", "	if throttler.bucket.TakeAvailable(1) >= 0 {"),
     ("C05-h2-double-bucket", "C05", "throttle/throttled_recorder.go", "bucketFrames := int64(config.BucketSize.Seconds()) * int64(camera.FPS())", "bucketFrames := 2 * int64(config.BucketSize.Seconds()) * int64(camera.FPS())"),
     ("C06-h1-event-per-suppressed-frame", "C06", "throttle/throttled_recorder.go", "		if !throttler.recording {\n			return nil\n		}", "		if !throttler.recording {\n			throttler.listener.WhenThrottled()\n			return nil\n		}"),
